@@ -122,7 +122,8 @@ void AST::distributeToFiles(OutputMode outputMode, std::filesystem::path singleF
 			entityMapping[e->getNodeGroup()] = e.get();
 
 
-		std::map<Entity*, std::vector<Entity*>> entitiesByPartition;
+		// Keep the partitions in first-seen (i.e. dependency sorted) order. Do not key an ordered container by Entity*: its iteration order depends on heap addresses.
+		std::vector<std::pair<Entity*, std::vector<Entity*>>> entitiesByPartition;
 		for (auto *e : getDependencySortedEntities()) {
 			HCL_ASSERT(e->getNodeGroup() != nullptr);
 			const hlim::NodeGroup *partition = e->getNodeGroup()->getPartition();
@@ -131,7 +132,12 @@ void AST::distributeToFiles(OutputMode outputMode, std::filesystem::path singleF
 				entity = entityMapping[partition];
 			else
 				entity = getRootEntity();
-			entitiesByPartition[entity].push_back(e);
+			auto it = std::find_if(entitiesByPartition.begin(), entitiesByPartition.end(), [entity](const auto &p) { return p.first == entity; });
+			if (it == entitiesByPartition.end()) {
+				entitiesByPartition.push_back({entity, {}});
+				it = entitiesByPartition.end() - 1;
+			}
+			it->second.push_back(e);
 		}
 
 		m_sourceFiles.reserve(entitiesByPartition.size());
